@@ -87,8 +87,11 @@ def run_verus(path, rlimit=30, threads=4, extra=None, multiple_errors=30):
     if extra:
         cmd += extra
     t0 = time.time()
-    p = subprocess.run(cmd, capture_output=True, text=True, cwd=os.path.dirname(path))
+    # wall-clock guard: a query that runs away is undecided, never an alarm
+    p = subprocess.run(["timeout", "-k", "5", "240"] + cmd, capture_output=True, text=True, cwd=os.path.dirname(path))
     wall = time.time() - t0
+    if p.returncode in (124, 137):
+        return {"cmd": " ".join(cmd), "rc": p.returncode, "json": None, "diags": [], "stderr": "verus did not finish within 240 s (killed)", "wall": wall}
     try:
         res = json.loads(p.stdout)
     except Exception:
